@@ -309,8 +309,11 @@ fn build(name: &str, ps: &[P]) -> Option<Vec<u8>> {
         ("ListAllIn.directory", [Str(d)]) => bytes_of(ListAllIn::directory(d)),
         ("SetBinaryLimit", [Num(n)]) => bytes_of(SetBinaryLimit(*n as usize)),
         ("AlbumArt.new", [Str(u), Non]) => bytes_of(AlbumArt::new(u)),
+        // builder setters overwrite: for odd offsets the setter is first called with a decoy value
+        ("AlbumArt.new", [Str(u), Num(n)]) if n % 2 == 1 => bytes_of(AlbumArt::new(u).offset(8192).offset(*n as usize)),
         ("AlbumArt.new", [Str(u), Num(n)]) => bytes_of(AlbumArt::new(u).offset(*n as usize)),
         ("AlbumArtEmbedded.new", [Str(u), Non]) => bytes_of(AlbumArtEmbedded::new(u)),
+        ("AlbumArtEmbedded.new", [Str(u), Num(n)]) if n % 2 == 1 => bytes_of(AlbumArtEmbedded::new(u).offset(8192).offset(*n as usize)),
         ("AlbumArtEmbedded.new", [Str(u), Num(n)]) => bytes_of(AlbumArtEmbedded::new(u).offset(*n as usize)),
         ("TagTypes.enable_all", []) => bytes_of(TagTypes::enable_all()),
         ("TagTypes.disable_all", []) => bytes_of(TagTypes::disable_all()),
